@@ -104,8 +104,25 @@ def gen_case(rng, n, for_fit):
         if rng.random() < 0.3:
             ml, cl = [], []
     rng.shuffle(cl)
+    if rng.random() < 0.15:
+        # "whatever the sample indices are": some labels name NO training sample (negative, or beyond the data).  The
+        # relabelling is injective, so the must-link graph and the verdict of the validation are unchanged; in training
+        # a pair with such a member never has both samples in a batch and contributes nothing.
+        labels = sorted({v for p in ml + cl for v in p})
+        ren = {}
+        for v in labels:
+            if rng.random() < 0.5:
+                mode = choice(rng, ["neg", "neg", "far_neg", "beyond"])
+                ren[v] = {"neg": -(v + 1), "far_neg": -(n + 1 + v), "beyond": n + v}[mode]
+        ml = [[ren.get(a, a), ren.get(b, b)] for a, b in ml]
+        cl = [[ren.get(a, a), ren.get(b, b)] for a, b in cl]
+        foreign = True
+    else:
+        foreign = False
     fmt = weighted(rng, [("tuples", 3), ("lists", 2), ("array", 2), ("none_if_empty", 1)])
     case = dict(must_link=ml, cannot_link=cl, fmt=fmt, kind=kind, factor=choice(rng, [0.5, 1.0, 2.5, 7.0]))
+    if foreign:
+        case["foreign_labels"] = True
     if kind == "malformed":
         case["malform"] = dict(which=choice(rng, ["must_link", "cannot_link"]),
                                how=choice(rng, ["scalar", "flat_list", "one_column", "string"]))
@@ -182,6 +199,8 @@ def execute(record):
         world = World(log, res, rng)
         world.opt_mode = faults.get("opt", "real")
         ml, cl = case["must_link"], case["cannot_link"]
+        if case.get("foreign_labels"):
+            res.probe("labels_naming_no_sample")
         ml_arg, cl_arg = materialise(ml, case["fmt"]), materialise(cl, case["fmt"])
         well_formed = True
         if case.get("malform"):
